@@ -5,8 +5,12 @@ from __future__ import annotations
 BATCH_BASE = 1_000_000
 
 PLANS = {
+    "C13": {
+        "quick": [("hist", 900), ("codec", 600)],
+        "thorough": [("hist", 20000), ("codec", 12000)],
+    },
     "C14": {
-        "quick": [("seq", 700), ("threads", 500), ("abort", 400)],
+        "quick": [("seq", 700), ("threads", 500), ("abort", 400), ("abort_enum", 16)],
         "thorough": [("seq", 12000), ("threads", 10000), ("abort", 8000), ("abort_enum", 60)],
     },
 }
@@ -32,5 +36,8 @@ def profile_for(prop, batch, open_findings):
         profile["force"] = {"threads": True, "aborts": False}
     elif batch in ("abort", "abort_enum"):
         profile["force"] = {"threads": False, "aborts": True}
+    if batch == "abort_enum":
+        profile["stride"] = 7
+        profile["force"].update({"codecs": False, "n_outer": 1})
     profile["avoid_open"] = sorted({k for e in open_findings for k in e.get("avoid_knobs", [])})
     return profile
